@@ -309,6 +309,7 @@ impl Monitor for C04 {
         let which = (idx % 3) as usize;
         let clause = ((idx / 3) % 5) as usize;
         let n = nl[((idx / 15) % nl.len() as u64) as usize];
+        let n = super::jitter_n(cfg, n, 1, 64, &mut rng);
         let exact = (idx / (15 * nl.len() as u64)) % 2 == 0;
         let k = variants(which, n, &mut rng);
         let class = *rng.pick(&CLASSES);
